@@ -341,6 +341,26 @@ func c06Vector(c *Ctx, raw stdjson.RawMessage) {
 		c06Cycle(c, &cv)
 		return
 	}
+	var sv strVec
+	if stdjson.Unmarshal(raw, &sv) == nil && sv.Dir == "unesc" {
+		// the literal units of spec/JsonString.tla, well formed or broken (surrogate halves, cut escapes, invalid bytes
+		// at the very end of a string): as a value and as a member name into every kind of target
+		c.Nontrivial()
+		lits, _, ok := renderLit(&sv, int(c.Seed))
+		if !ok {
+			c.SpecError("C06", "unknown literal unit", sv)
+			return
+		}
+		lit := `"` + strings.Join(lits, "") + `"`
+		c.Case()
+		for _, doc := range []string{lit, "{" + lit + ":" + lit + "}", "[" + lit + "]"} {
+			c06Decode(c, c06Case{Kind: "doc", Doc: doc}, []byte(doc))
+		}
+		for _, tn := range []string{"string", "bytes", "number", "text", "map[text]", "[2]string"} {
+			c06Decode(c, c06Case{Kind: "doc", Doc: lit, Target: tn}, []byte(lit))
+		}
+		return
+	}
 	var gv grammarVec
 	if stdjson.Unmarshal(raw, &gv) == nil && gv.M != "" {
 		c.Nontrivial()
